@@ -160,6 +160,13 @@ fn mk_value(kind: u64, name: &str, paths: &PathLog) -> Option<Value> {
     })
 }
 
+const STRING_ONLY_KEYS: [&str; 2] = ["kfmt", "kattr"];
+/// strings handed to builtins that take a name-like argument: context keys, unbound names,
+/// names of registered filters/tests, pool variables, attribute-ish strings
+const NAME_STRINGS: [&str; 14] = [
+    "kfmt", "kattr", "ufmt", "uattr", "x", "foo", "upper", "f", "defined", "t", "a", "0", "a.b", "loop",
+];
+
 /// names the helper templates read; the contexts also provide the dynamic template names
 const TEMPLATE_NAME_VARS: [(&str, &str); 3] = [("tpl", "inc.txt"), ("libname", "lib.txt"), ("basename", "base.txt")];
 
@@ -182,6 +189,11 @@ fn mk_context(which: usize, seed: u64) -> Arc<Rec> {
         if which != 2 || rng.chance(1, 2) {
             inner.insert(var.to_string(), Value::from(*tname));
         }
+    }
+    // keys that no template uses as a variable: they only occur as STRING arguments of builtins
+    // (`xs|map("kfmt")`); a builtin that resolves such a string against the context is caught
+    for key in STRING_ONLY_KEYS.iter() {
+        inner.insert(key.to_string(), Value::from_object(U { depth: 2, len: 2, path: None }));
     }
     Arc::new(Rec { inner, log: Mutex::new(Vec::new()), paths })
 }
@@ -831,7 +843,13 @@ impl Gen {
                     .collect();
                 format!("{{{}}}", items.join(", "))
             }
-            _ => "namespace()".to_string(),
+            _ => {
+                if self.rng.chance(3, 4) {
+                    self.builtin_expr(d)
+                } else {
+                    "namespace()".to_string()
+                }
+            }
         }
     }
     fn bound(&mut self, d: u32) -> String {
@@ -858,6 +876,59 @@ impl Gen {
             }
         }
         "1".to_string()
+    }
+    fn name_string(&mut self) -> String {
+        format!("\"{}\"", self.rng.pick(&NAME_STRINGS))
+    }
+    /// a builtin filter / test / function / method that takes a name-like string argument
+    fn builtin_expr(&mut self, d: u32) -> String {
+        let seq = if self.rng.chance(2, 3) { format!("{}|l", self.name()) } else { format!("[{}, {}]", self.name(), self.name()) };
+        let x = self.postfix_base(d + 1);
+        let n1 = self.name_string();
+        let n2 = self.name_string();
+        let n3 = self.name_string();
+        match self.rng.below(40) {
+            0 => format!("{}|map({})|list", seq, n1),
+            1 => format!("{}|map({}, {})|list", seq, n1, n2),
+            2 => format!("{}|map(attribute={})|list", seq, n1),
+            3 => format!("{}|map(attribute={}, default={})|list", seq, n1, n2),
+            4 => format!("{}|select({})|list", seq, n1),
+            5 => format!("{}|reject({}, {})|list", seq, n1, n2),
+            6 => format!("{}|selectattr({})|list", seq, n1),
+            7 => format!("{}|selectattr({}, {})|list", seq, n1, n2),
+            8 => format!("{}|rejectattr({}, {}, {})|list", seq, n1, n2, n3),
+            9 => format!("{}|sort(attribute={})|list", seq, n1),
+            10 => format!("{}|groupby({})|list", seq, n1),
+            11 => format!("{}|groupby(attribute={}, default={})|list", seq, n1, n2),
+            12 => format!("{}|unique(attribute={})|list", seq, n1),
+            13 => format!("{}|sum(attribute={})", seq, n1),
+            14 => format!("{}|min(attribute={})", seq, n1),
+            15 => format!("{}|max(attribute={})", seq, n1),
+            16 => format!("{}|attr({})", x, n1),
+            17 => format!("{}|default({})", x, n1),
+            18 => format!("{}|join({})", seq, n1),
+            19 => format!("{}|join({}, attribute={})", seq, n1, n2),
+            20 => format!("{}|dictsort(by={})", x, n1),
+            21 => format!("{}|format({})", n1, x),
+            22 => format!("{}|replace({}, {})", x, n1, n2),
+            23 => format!("{}|split({})", x, n1),
+            24 => format!("({} is filter)", n1),
+            25 => format!("({} is test)", n1),
+            26 => format!("({} is startingwith({}))", x, n1),
+            27 => format!("({} is in({}))", x, n1),
+            28 => format!("({} is {})", x, self.rng.pick(&["kfmt", "ufmt", "defined", "t"])),
+            29 => format!("namespace({}=1)", self.rng.pick(&["kfmt", "ufmt", "x"])),
+            30 => format!("dict({}=1, **{{{}: 2}})", self.rng.pick(&["kfmt", "ufmt", "x"]), n1),
+            31 => format!("loop.cycle({}, {})", n1, n2),
+            32 => format!("loop.changed({})", n1),
+            33 => format!("{}|{}", x, self.rng.pick(&["kfmt", "ufmt"])),
+            34 => format!("{}|items|list", x),
+            35 => format!("{}|batch(2, {})|list", seq, n1),
+            36 => format!("{}|slice(2, {})|list", seq, n1),
+            37 => format!("{}[{}]", x, n1),
+            38 => format!("{}|indent(2, true)|trim({})", x, n1),
+            _ => format!("{}|tojson|urlencode ~ ({}|title)", x, n1),
+        }
     }
     fn postfix_base(&mut self, d: u32) -> String {
         if self.rng.chance(3, 5) {
@@ -1142,6 +1213,11 @@ const CORPUS: &[&str] = &[
     "{% set a, (b, c) = y %}{{ a ~ b ~ c }}{% set ns = namespace() %}{% set ns.k, d = x %}{{ d }}",
     "{{ a.b.c }}{{ a.b.d }}{% set q = a.b %}{{ q.e }}{{ (a|f).g }}{{ a[\"h\"].i }}{% with w = a %}{{ w.j }}{% endwith %}",
     "{% macro m(p, q=p, r=outer) %}{{ p }}{{ q }}{{ r }}{{ varargs }}{{ kwargs }}{% endmacro %}{{ m(1) }}",
+    "{{ y|l|map(\"kfmt\")|list }}{{ y|l|map(\"ufmt\")|list }}{{ y|l|map(\"upper\")|list }}",
+    "{{ y|l|select(\"kfmt\")|list }}{{ y|l|selectattr(\"kattr\", \"kfmt\")|list }}{{ y|attr(\"kattr\") }}{{ y|default(\"kfmt\") }}",
+    "{{ y|l|sort(attribute=\"kattr\")|list }}{{ y|l|groupby(\"kattr\")|list }}{{ (\"kfmt\" is filter) }}{{ (\"kfmt\" is test) }}",
+    "{% for v in y|l %}{{ loop.cycle(\"kfmt\", \"ufmt\") }}{{ loop.changed(\"kattr\") }}{% endfor %}{{ namespace(kfmt=1).kfmt }}{{ dict(kattr=1) }}",
+    "{% for i in [1] %}{% endfor %}{{ 1 // 0 }}",
     "#expr# [foo, bar.baz]",
     "#expr# foo[a:b] ~ loop ~ self ~ self.x() ~ loop(q)",
 ];
@@ -1227,6 +1303,21 @@ fn run_one(full_src: &str) -> String {
         foreign.extend(env.get_template(name).unwrap().undeclared_variables(false));
     }
     fields.push(format!("\"foreign\":{}", json_list(foreign.iter().cloned())));
+    // every name the other templates mention (for the debug-mode stream)
+    let mut foreign_mentioned: BTreeSet<String> = BTreeSet::new();
+    for (_, hsrc) in HELPERS.iter() {
+        if let Ok(ast) = parse(&cfg.source(hsrc), "h", cfg.syntax(), WhitespaceConfig::default()) {
+            let mut d = Dump::default();
+            d.stmt(&ast);
+            let toks: Vec<&str> = d.out.split(' ').collect();
+            for w in toks.windows(2) {
+                if w[0] == "var" || w[0] == "macro" {
+                    foreign_mentioned.insert(w[1].to_string());
+                }
+            }
+        }
+    }
+    fields.push(format!("\"foreign_mentioned\":{}", json_list(foreign_mentioned.into_iter())));
     if cfg.named && !is_expr {
         if let Err(e) = env.add_template_owned("t".to_string(), src.to_string()) {
             fields.push(format!("\"compile\":{}", json_str(&format!("err:{:?}", e.kind()))));
@@ -1365,6 +1456,18 @@ fn run_one(full_src: &str) -> String {
         let ps: BTreeSet<String> = rec.paths.lock().unwrap().iter().cloned().collect();
         paths.push(json_list(ps.into_iter()));
     }
+    // debug mode (separate stream): a failing render builds its error report from the values of
+    // the names mentioned before the failing instruction (`State::make_debug_info`)
+    if !is_expr {
+        let mut denv = mk_env(cfg);
+        denv.set_debug(true);
+        let rec = mk_context(1, seed);
+        let ctx = Value::from_dyn_object(rec.clone());
+        let res = guarded(|| denv.template_from_str(src).and_then(|t| t.render(ctx)).map(|_| ()));
+        let keys: BTreeSet<String> = rec.log.lock().unwrap().iter().cloned().collect();
+        fields.push(format!("\"debug_reads\":{}", json_list(keys.into_iter())));
+        fields.push(format!("\"debug_outcome\":{}", json_str(&describe(res))));
+    }
     fields.push(format!("\"reads\":[{}]", reads.join(",")));
     fields.push(format!("\"paths\":[{}]", paths.join(",")));
     fields.push(format!("\"outcome\":{}", json_list(outcomes)));
@@ -1395,7 +1498,16 @@ fn for_each_source(tier: &str, f: &mut dyn FnMut(&str)) {
             2 => 45,
             _ => 80,
         };
-        let src = if i % 6 == 5 {
+        let src = if i % 8 == 7 {
+            // builtin × string arguments, in a small template (nothing else reads the names)
+            let e1 = g.builtin_expr(1);
+            let e2 = g.builtin_expr(1);
+            match g.rng.below(3) {
+                0 => format!("{{{{ {} }}}}", e1),
+                1 => format!("{{% for v in {}|l %}}{{{{ {} }}}}{{{{ {} }}}}{{% endfor %}}", g.name(), e1, e2),
+                _ => format!("{{% set r = {} %}}{{{{ {} }}}}", e1, e2),
+            }
+        } else if i % 6 == 5 {
             format!("{}{}", EXPR_MARK, g.expr(0))
         } else {
             g.body(0, false, false)
